@@ -110,10 +110,15 @@ class Interp:
     # =============================================================================
     def global_lookup(self, name, module):
         c = self.contract
-        if c is not None and name in c.globals:
-            return c.globals[name]
-        if name in self.pack.globals:
-            return self.pack.globals[name]
+        for src in ((c.globals if c is not None else {}), self.pack.globals):
+            if name in src:
+                v = src[name]
+                if isinstance(v, Kind) or callable(v):
+                    g = self.ctx.ghost
+                    if "global:" + name not in g:
+                        g["global:" + name] = v.fresh(self.ctx, name) if isinstance(v, Kind) else v(self)
+                    return g["global:" + name]
+                return v
         key = (module.relpath, name)
         if key in self.module_cache:
             return self.module_cache[key]
@@ -403,6 +408,8 @@ class Interp:
                 self.unsupported(node, "spec reads undeclared field %s.%s" % (recv.cls, attr))
             self.unsupported(node, "attribute %s of %s not declared in the contract" % (attr, recv.cls))
         if isinstance(recv, Opaque):
+            if recv.tag == "super":
+                return BoundMethod(recv, attr)
             if attr in recv.attrs:
                 return recv.attrs[attr]
             if ("%s.%s" % (recv.tag, attr)) in self.pack.models:
@@ -761,7 +768,8 @@ class Interp:
             return self.apply_contract(callee, recv, args, kwargs, node)
         if cur is not None and (fnode.name in cur.inline or qual in cur.inline or "*" in cur.inline):
             clo = Closure(fnode, Env(mod, owner_cls=cls), mod, owner_cls=cls)
-            full = ([recv] if recv is not None else []) + list(args)
+            is_static = any(ast.unparse(d) == "staticmethod" for d in fnode.decorator_list)
+            full = ([recv] if recv is not None and not is_static else []) + list(args)
             return self.call_closure(clo, full, kwargs, node)
         self.unsupported(node, "call to %s: no contract and not declared inline" % qual)
 
@@ -812,6 +820,9 @@ class Interp:
         if self.depth > 12:
             self.unsupported(node, "inlining depth exceeded")
         fnode = clo.node
+        decos = [ast.unparse(d) for d in getattr(fnode, "decorator_list", [])]
+        if "staticmethod" in decos and clo.owner_cls and args and isinstance(args[0], SObj) and getattr(clo, "_bound", False):
+            args = args[1:]
         env = Env(clo.module, clo.env, getattr(fnode, "name", "<lambda>"), clo.owner_cls)
         self.bind(fnode, args, kwargs, env, node)
         if isinstance(fnode, ast.Lambda):
@@ -832,7 +843,8 @@ class Interp:
         mod = SourceModule.get(c.file)
         fnode = mod.func(c.qualname)
         env = Env(mod, None, c.qualname, c.cls)
-        full = ([recv] if recv is not None else []) + list(args)
+        is_static = any(ast.unparse(d) == "staticmethod" for d in fnode.decorator_list)
+        full = ([recv] if recv is not None and not is_static else []) + list(args)
         self.bind(fnode, full, kwargs, env, node)
         site = "call:%s" % c.qualname
         self.spec_mode += 1
@@ -939,13 +951,14 @@ class Interp:
         if id(v) in memo:
             return memo[id(v)]
         if isinstance(v, SObj):
-            o = SObj(v.cls, {})
+            o = SObj(v.cls, {}, uid=v.uid)
             memo[id(v)] = o
             for k, x in v.fields.items():
                 o.fields[k] = self.snapshot(x, memo)
             return o
         if isinstance(v, Opaque):
             o = Opaque(v.tag, v.name)
+            o.uid = v.uid
             memo[id(v)] = o
             for k, x in v.attrs.items():
                 o.attrs[k] = self.snapshot(x, memo) if not isinstance(x, Env) else x
